@@ -226,7 +226,12 @@ def gzip_bytes(data: bytes) -> bytes:
     return co.compress(data) + co.flush()
 
 
-def zstd_bytes(data: bytes) -> bytes:
+def zstd_bytes(data: bytes, streaming: bool = False) -> bytes:
+    """One zstd frame; ``streaming`` = a frame whose header does not declare the content size (what compressobj() /
+    stream writers produce), which takes the decoder's bounded streaming path instead of the header pre-check."""
     import zstandard
 
+    if streaming:
+        co = zstandard.ZstdCompressor(level=1, write_content_size=False).compressobj()
+        return co.compress(data) + co.flush()
     return zstandard.ZstdCompressor(level=1).compress(data)
